@@ -237,19 +237,19 @@ end
 
 end tree
 
-/-! ### the model-graph path: `add_*_sliver` then `build_deep_*_sliver` on a property graph -/
+/-! ### the model-graph path: `add_*_sliver` then `build_deep_*_sliver` on a property graph
 
-structure GNode (P : Type) where
-  id : String
-  cls : String
-  props : Props P
+The store is modelled per `NodeID`: the nodes stored under that id (class, properties) and its adjacency
+(relationship class, neighbour id; both directions, as NetworkX keeps it).  The order in which the
+implementation enumerates neighbours (a `set`) is not modelled: children are compared up to order. -/
 
-/-- nodes in insertion order, relationships as (a, rel, b) -/
 structure AGraph (P : Type) where
-  nodes : List (GNode P)
-  edges : List (String × String × String)
+  node : String → List (String × Props P)
+  adj : String → List (String × String)
 
-def AGraph.empty {P : Type} : AGraph P := ⟨[], []⟩
+def AGraph.empty {P : Type} : AGraph P := ⟨fun _ => [], fun _ => []⟩
+
+def upd {α : Type} (f : String → α) (k : String) (v : α) : String → α := fun x => if x = k then v else f x
 
 def classOf (k : Kind) : String :=
   if k = "node" then "NetworkNode" else if k = "component" then "Component" else if k = "service" then "NetworkService"
@@ -258,13 +258,30 @@ def classOf (k : Kind) : String :=
 /-- `REL_HAS` for components and services, `REL_CONNECTS` for interfaces -/
 def relOf (child : Kind) : String := if child = "interface" then "connects" else "has"
 
+/-- `List.mapM` in `Except`, spelled out -/
+def mapE {α β : Type} (f : α → Except Err β) : List α → Except Err (List β)
+  | [] => .ok []
+  | a :: as =>
+    match f a with
+    | .error e => .error e
+    | .ok b =>
+      match mapE f as with
+      | .error e => .error e
+      | .ok bs => .ok (b :: bs)
+
 section graph
 variable {V P : Type}
 
-/-- `add_node` (rejects an existing node of the same id *and* class) followed by `add_link` to the parent -/
+/-- `add_node` (rejects an existing node of the same id *and* class) followed by `add_link` to the parent
+(the parent's existence is not modelled: it always exists where this is used) -/
+def addNodeTo (g : AGraph P) (parent : Option String) (id cls rel : String) (props : Props P) : AGraph P :=
+  let node' := upd g.node id (g.node id ++ [(cls, props)])
+  match parent with
+  | none => ⟨node', g.adj⟩
+  | some p => ⟨node', upd (upd g.adj p (g.adj p ++ [(rel, id)])) id (g.adj id ++ [(rel, p)])⟩
+
 def addNode (g : AGraph P) (parent : Option String) (id cls rel : String) (props : Props P) : Except Err (AGraph P) :=
-  if g.nodes.any (fun n => n.id == id && n.cls == cls) then .error "query"
-  else .ok ⟨g.nodes ++ [⟨id, cls, props⟩], match parent with | some p => g.edges ++ [(p, rel, id)] | none => g.edges⟩
+  if (g.node id).any (fun n => n.1 == cls) then .error "query" else .ok (addNodeTo g parent id cls rel props)
 
 mutual
 /-- `add_network_node_sliver` / `add_component_sliver` / `add_network_service_sliver` / `add_interface_sliver` -/
@@ -287,51 +304,63 @@ def addKids (C : Codecs V P) (g : AGraph P) (parentId : String) (parentKind : Ki
       | .ok g' => addKids C g' parentId parentKind cs
 end
 
-/-- `_find_node` -/
-def findNode (g : AGraph P) (id : String) : Except Err (GNode P) :=
-  match g.nodes.filter (fun n => n.id == id) with
+/-- `_find_node` + `get_node_properties`: exactly one node under the id -/
+def findNode (g : AGraph P) (id : String) : Except Err (String × Props P) :=
+  match g.node id with
   | [n] => .ok n
   | _ => .error "query"
 
-/-- `get_first_neighbor(node_id, rel, label)`: ids, in no particular order -/
+/-- `get_first_neighbor(node_id, rel, label)` -/
 def neighbors (g : AGraph P) (id rel cls : String) : List String :=
-  let ids := (g.edges.filterMap fun e =>
-    if e.2.1 == rel then (if e.1 == id then some e.2.2 else if e.2.2 == id then some e.1 else none) else none).eraseDups
-  ids.filter fun i => g.nodes.any (fun n => n.id == i && n.cls == cls)
+  (((g.adj id).filter (fun e => e.1 == rel)).map (·.2)).filter fun i => (g.node i).any (fun n => n.1 == cls)
 
-/-- `build_deep_<kind>_sliver` with a recursion bound (the graph written by `addSliver` is a tree) -/
+/-- `interface_sliver_from_graph_properties_dict(get_node_properties(i))`: a sub-interface, built flat -/
+def flatIface (C : Codecs V P) (g : AGraph P) (i : String) : Except Err (Sliver V) :=
+  match findNode g i with
+  | .error e => .error e
+  | .ok m =>
+    match fromProps C (tableOf "interface") m.2 with
+    | .error e => .error e
+    | .ok fi => .ok (.mk "interface" (some i) fi [])
+
+/-- the children of one kind: every neighbour rebuilt; `add_device` asserts name and type of components -/
+def buildSlot (rec : Kind → String → Except Err (Sliver V)) (g : AGraph P) (id : String) (ck : Kind) :
+    Except Err (List (Sliver V)) :=
+  match mapE (rec ck) (neighbors g id (relOf ck) (classOf ck)) with
+  | .error e => .error e
+  | .ok ds => if ds.all childOk then .ok ds else .error "assertion"
+
+def buildSlots (rec : Kind → String → Except Err (Sliver V)) (g : AGraph P) (id : String) :
+    List (String × Kind) → Except Err (List (Sliver V))
+  | [] => .ok []
+  | sc :: rest =>
+    match buildSlot rec g id sc.2 with
+    | .error e => .error e
+    | .ok ds =>
+      match buildSlots rec g id rest with
+      | .error e => .error e
+      | .ok es => .ok (ds ++ es)
+
+/-- `build_deep_<kind>_sliver` with a recursion bound (containment is at most four levels deep) -/
 def buildDeep [DecidableEq V] (C : Codecs V P) (g : AGraph P) : Nat → Kind → String → Except Err (Sliver V)
   | 0, _, _ => .error "fuel"
   | fuel + 1, k, id =>
     match findNode g id with
     | .error e => .error e
     | .ok n =>
-      if n.cls != classOf k && !(k == "node" && n.cls == "CompositeNode") then .error "query" else
-      match fromProps C (tableOf k) n.props with
+      if n.1 != classOf k && !(k == "node" && n.1 == "CompositeNode") then .error "query" else
+      match fromProps C (tableOf k) n.2 with
       | .error e => .error e
       | .ok f =>
-        if k == "interface" then
-          -- sub-interfaces only below a DedicatedPort, and built flat
-          if (f "type").any C.isDedicated then
-            let kids : Except Err (List (Sliver V)) := (neighbors g id "connects" "ConnectionPoint").mapM fun i =>
-              match findNode g i with
-              | .error e => Except.error e
-              | .ok m => (fromProps C (tableOf "interface") m.props).map fun fi => Sliver.mk "interface" (some i) fi []
-            match kids with
-            | .error e => .error e
-            | .ok cs => .ok (.mk k (some id) f (dedupe cs))
-          else .ok (.mk k (some id) f [])
-        else
-          let kids : Except Err (List (Sliver V)) := (slotsOf k).foldl (fun (acc : Except Err (List (Sliver V))) sc =>
-            match acc with
-            | .error e => Except.error e
-            | .ok cs =>
-              match (neighbors g id (relOf sc.2) (classOf sc.2)).mapM (fun i => buildDeep C g fuel sc.2 i) with
-              | .error e => Except.error e
-              | .ok ds => if ds.all childOk then Except.ok (cs ++ ds) else Except.error "assertion") (Except.ok [])
-          match kids with
-          | .error e => .error e
-          | .ok cs => .ok (.mk k (some id) f (dedupe cs))
+        let kids : Except Err (List (Sliver V)) :=
+          if k == "interface" then
+            -- sub-interfaces only below a DedicatedPort, and built flat
+            if (f "type").any C.isDedicated then mapE (flatIface C g) (neighbors g id "connects" "ConnectionPoint")
+            else .ok []
+          else buildSlots (buildDeep C g fuel) g id (slotsOf k)
+        match kids with
+        | .error e => .error e
+        | .ok cs => .ok (.mk k (some id) f (dedupe cs))
 
 /-- the whole path on a fresh graph (`component`: under a bare parent node, as the harness does) -/
 def graphRoundtrip [DecidableEq V] (C : Codecs V P) (s : Sliver V) : Except Err (Sliver V) :=
@@ -342,7 +371,7 @@ def graphRoundtrip [DecidableEq V] (C : Codecs V P) (s : Sliver V) : Except Err 
   | .ok g =>
     match addSliver C g (if s.kind = "component" then some "c02-parent" else none) s with
     | .error e => .error e
-    | .ok g' => buildDeep C g' (g'.nodes.length + 1) s.kind ((s.nodeId).getD "")
+    | .ok g' => buildDeep C g' 5 s.kind ((s.nodeId).getD "")
 
 end graph
 
